@@ -282,7 +282,17 @@ def utf8_header(text, pad=0):
     return head + body + text
 
 
+def ctl_header(text):
+    """comment lines in front of the file that contain, inside the comment, the characters some libraries treat as line
+    boundaries although VHDL and VSG's reader do not: form feed, vertical tab, file separator, NEL, U+2028, U+2029"""
+    if not text.strip():
+        return None
+    head = "".join("-- %s %s mark\n" % (name, ch) for name, ch in (("ff", "\x0c"), ("vt", "\x0b"), ("fs", "\x1c"), ("nel", "\x85"), ("ls", "\u2028"), ("ps", "\u2029")))
+    return head + text
+
+
 RECIPES = {
+    "ownctl": ctl_header,
     "ownutf8a": lambda s: utf8_header(s, 0),
     "ownutf8b": lambda s: utf8_header(s, 1),
     "ownutf8c": lambda s: utf8_header(s, 2),
